@@ -7,5 +7,7 @@ var Registry = map[string]core.Property{}
 func register(p core.Property) { Registry[p.ID()] = p }
 
 func init() {
+	register(C01{})
+	register(C02{})
 	register(C03{})
 }
